@@ -7,7 +7,7 @@ from ..flow import Aff, Facts, cmp_to_constraints
 
 META = {
     'design_ref': 'DESIGN.md §5 C18',
-    'technique': 'regular-language equivalence for the command regex; path-sensitive affine-form analysis of patches_from_ed_script (command x range table with module constants, difference-bound entailment for slice validity); CFG must-pass-through for the text-block terminator in the function or its helper; tuple-order agreement with patch_lines; patch_lines: the mutating loop runs over the materialised script, and its range guard is interpreted on affine values (ValueError exactly when the range end exceeds the length)',
+    'technique': 'regular-language equivalence for the command regex; path-sensitive affine-form analysis of patches_from_ed_script (command x range table with module constants, difference-bound entailment for slice validity); CFG must-pass-through for the text-block terminator in the function or its helper; tuple-order agreement with patch_lines; patch_lines: the mutating loop runs over the materialised script, and its range guard is interpreted on affine values (ValueError exactly when the range end exceeds the length); a reader written with a mode variable is normalised to the nested loop first',
     'level_text': 'Static decision: the command regex accepts exactly the ed command lines on ASCII input; for every command '
                   'letter and range form every path through the loop body either raises ValueError or yields the slice the ed '
                   'semantics prescribes, with 0 <= first <= last proved from the guards on the path; no path reaches the yield '
